@@ -136,28 +136,6 @@ Qed.
 Lemma is_prefix_refl a : is_prefix a a = true.
 Proof. induction a; simpl; [reflexivity|]. rewrite N.eqb_refl. exact IHa. Qed.
 
-Lemma gi_match_self c p d isdir : gi_match c (p, d) p isdir = false.
-Proof. unfold gi_match. rewrite Nat.ltb_irrefl, andb_false_r. reflexivity. Qed.
-
-Lemma should_skip_dir_push_self c ms p m :
-  (m = None \/ exists d, m = Some (p, d)) ->
-  should_skip_dir c (m :: ms) p = should_skip_dir c ms p.
-Proof.
-  intros Hm. unfold should_skip_dir.
-  assert (E : gi_match_stack c (m :: ms) p true = gi_match_stack c ms p true).
-  { unfold gi_match_stack. cbn [existsb]. destruct Hm as [->|[d ->]]; [reflexivity|].
-    rewrite gi_match_self. reflexivity. }
-  rewrite E. reflexivity.
-Qed.
-
-Lemma parse_dir_gi_shape p ch m : parse_dir_gi p ch = GiOk m -> m = None \/ exists d, m = Some (p, d).
-Proof.
-  unfold parse_dir_gi. destruct (find_child GI ch) as [[n k s d ff|n l df]|].
-  - destruct (ff_open ff); [discriminate|]. intros H; inversion H. right. eexists; reflexivity.
-  - destruct (df_open df); [discriminate|]. intros H; inversion H. left; reflexivity.
-  - intros H; inversion H. left; reflexivity.
-Qed.
-
 (* the directory branch in terms of dir_decision *)
 Lemma hf_dir_decision c p ch st2 :
   hf_dir c p ch st2 =
@@ -169,10 +147,8 @@ Lemma hf_dir_decision c p ch st2 :
 Proof.
   unfold hf_dir, dir_decision.
   destruct (c_gitignore c) eqn:G.
-  - destruct (should_skip_dir c (s_stack st2) p) eqn:S.
-    + rewrite s_stack_set, should_skip_dir_push_self by (left; reflexivity). rewrite S. reflexivity.
-    + destruct (parse_dir_gi p ch) as [|m] eqn:E; [reflexivity|].
-      rewrite s_stack_set, should_skip_dir_push_self by (eapply parse_dir_gi_shape; exact E). rewrite S. reflexivity.
+  - destruct (should_skip_dir c (s_stack st2) p) eqn:S; [reflexivity|].
+    destruct (parse_dir_gi p ch) as [|m] eqn:E; reflexivity.
   - destruct (should_skip_dir c (s_stack st2) p); [reflexivity|]. rewrite set_stack_same. reflexivity.
 Qed.
 
@@ -242,9 +218,9 @@ Proof.
   induction es as [|e es IH]; intros checked st; cbn [run_exts].
   - split; [reflexivity|discriminate].
   - assert (S0 : s_stack (add_event st (EReq e p)) = s_stack st) by (destruct st; reflexivity).
-    destruct (c_required c e p).
+    destruct (req c e p size ff).
     + destruct ((0 <? c_max_size c)%Z && negb checked).
-      * destruct (ff_stat ff); [split; [exact S0|discriminate]|].
+      * destruct (ff_stat ff); [destruct (c_fatal c); (split; [exact S0|discriminate])|].
         destruct (c_max_size c <? size)%Z; [split; [exact S0|discriminate]|].
         pose proof (run_extractor_stack c e p ff (add_event st (EReq e p))) as R.
         destruct (run_extractor c e p ff (add_event st (EReq e p))) as [st1 sg|st1 pc]; cbn [wres_state] in R.
@@ -272,34 +248,24 @@ Qed.
 Definition agrees (c : cfg) (ms0 : stack) (r : wres) (e : eres) : Prop :=
   match e with
   | EDone st' => r = WOk (set_stack st' ms0) Continue
-  | EAbort st' a =>
-      (exists ms, r = WOk (set_stack st' ms) (Abort a)) \/
-      (c_gitignore c = true /\ exists ms, r = WPanic (set_stack st' ms) PcSlice)
+  | EAbort st' a => exists ms, r = WOk (set_stack st' ms) (Abort a)
   | EPanic st' pc => exists ms, r = WPanic (set_stack st' ms) pc
   end.
 
 (* effect of the deferred postHandleFile on an agreeing inner result *)
 Lemma post_dir_abort0 c nd st1 a :
-  is_dir nd = true ->
-  (exists ms1, post c nd (WOk st1 (Abort a)) = WOk (set_stack st1 ms1) (Abort a)) \/
-  (c_gitignore c = true /\ exists ms1, post c nd (WOk st1 (Abort a)) = WPanic (set_stack st1 ms1) PcSlice).
+  exists ms1, post c nd (WOk st1 (Abort a)) = WOk (set_stack st1 ms1) (Abort a).
 Proof.
-  intros D. unfold post. rewrite D, andb_true_r. destruct (c_gitignore c) eqn:G.
+  unfold post. destruct (c_gitignore c && is_dir nd).
   - destruct (s_stack st1) as [|m ms] eqn:E.
-    + right. split; [reflexivity|]. exists []. rewrite <- E, set_stack_same. reflexivity.
-    + left. exists ms. reflexivity.
-  - left. exists (s_stack st1). rewrite set_stack_same. reflexivity.
+    + exists []. rewrite <- E, set_stack_same. reflexivity.
+    + exists ms. reflexivity.
+  - exists (s_stack st1). rewrite set_stack_same. reflexivity.
 Qed.
 
 Lemma post_dir_abort c nd st' a ms :
-  is_dir nd = true ->
-  (exists ms1, post c nd (WOk (set_stack st' ms) (Abort a)) = WOk (set_stack st' ms1) (Abort a)) \/
-  (c_gitignore c = true /\ exists ms1, post c nd (WOk (set_stack st' ms) (Abort a)) = WPanic (set_stack st' ms1) PcSlice).
-Proof.
-  intros D. destruct (post_dir_abort0 c nd (set_stack st' ms) a D) as [[ms1 H]|[G [ms1 H]]]; rewrite set_stack_twice in H.
-  - left. exists ms1. exact H.
-  - right. split; [exact G|]. exists ms1. exact H.
-Qed.
+  exists ms1, post c nd (WOk (set_stack st' ms) (Abort a)) = WOk (set_stack st' ms1) (Abort a).
+Proof. destruct (post_dir_abort0 c nd (set_stack st' ms) a) as [ms1 H]. rewrite set_stack_twice in H. exists ms1. exact H. Qed.
 
 Lemma second_call_agrees c p nd st ms' :
   s_stack st = ms' ->
@@ -335,7 +301,7 @@ Proof.
   - destruct ra as [[|k]|]; cbn [walk_children sched_children].
     + pose proof (second_call_agrees c p nd st ms' Hst) as A.
       destruct (exec c [HC ms' p nd true] st) as [st'|st' a|st' pc]; unfold agrees_inner; cbn [agrees]; [exact A| |contradiction].
-      left. exists ms'. exact A.
+      exists ms'. exact A.
     + cbn. rewrite <- Hst, set_stack_same. reflexivity.
     + cbn. rewrite <- Hst, set_stack_same. reflexivity.
   - inversion HF as [|? ? H1 HF']; subst.
@@ -355,14 +321,12 @@ Proof.
       - rewrite H1.
         pose proof (IH HF' (option_map pred ra') (set_stack st' (s_stack st)) (s_stack_set _ _)) as A.
         unfold agrees_inner in *. eapply agrees_exec_stack. exact A.
-      - unfold agrees_inner; cbn [agrees]. destruct H1 as [[ms H1]|[G [ms H1]]]; rewrite H1.
-        + left. exists ms. reflexivity.
-        + right. split; [exact G|]. exists ms. reflexivity.
+      - unfold agrees_inner; cbn [agrees]. destruct H1 as [ms H1]. rewrite H1. exists ms. reflexivity.
       - unfold agrees_inner; cbn [agrees]. destruct H1 as [ms H1]. rewrite H1. exists ms. reflexivity. }
     destruct ra as [[|k]|]; cbn [walk_children sched_children].
     + pose proof (second_call_agrees c p nd st (s_stack st) eq_refl) as A.
       destruct (exec c [HC (s_stack st) p nd true] st) as [st'|st' a|st' pc]; unfold agrees_inner; cbn [agrees]; [exact A| |contradiction].
-      left. exists (s_stack st). exact A.
+      exists (s_stack st). exact A.
     + apply (Hcons (Some (S k))). discriminate.
     + apply (Hcons None). discriminate.
 Qed.
@@ -376,13 +340,13 @@ Proof.
     unfold handle_file.
     pose proof (hf_prelude_stack c p false st) as PS.
     destruct (hf_prelude c p false st) as [st' sg|st2] eqn:E.
-    + apply hf_prelude_nofs_sig in E. destruct E as [a ->]. cbn [agrees]. left. exists (s_stack st).
+    + apply hf_prelude_nofs_sig in E. destruct E as [a ->]. cbn [agrees]. exists (s_stack st).
       rewrite <- PS, set_stack_same. reflexivity.
     + destruct (hf_file_stack c p k s ff st2) as [S1 S2].
       destruct (hf_file c p k s ff st2) as [st3 [| |a]|st3 pc]; cbn [wres_state] in S1; cbn [agrees].
       * rewrite <- PS, <- S1, set_stack_same. reflexivity.
       * exfalso. eapply S2. reflexivity.
-      * left. exists (s_stack st3). rewrite set_stack_same. reflexivity.
+      * exists (s_stack st3). rewrite set_stack_same. reflexivity.
       * exists (s_stack st3). rewrite set_stack_same. reflexivity.
   - (* directory *)
     rewrite walk_node_dir, schedule_dir. cbn [exec]. rewrite set_stack_same.
@@ -390,7 +354,7 @@ Proof.
     pose proof (hf_prelude_stack c p false st) as PS.
     destruct (hf_prelude c p false st) as [st' sg|st2] eqn:E.
     + apply hf_prelude_nofs_sig in E. destruct E as [a ->]. cbn [agrees].
-      apply post_dir_abort0. reflexivity.
+      apply post_dir_abort0.
     + rewrite hf_dir_decision. rewrite PS.
       destruct (dir_decision c (s_stack st) p ch) as [| |ms'] eqn:DD.
       * (* skipped *)
@@ -398,7 +362,7 @@ Proof.
         destruct (c_gitignore c).
         -- rewrite s_stack_set, set_stack_twice. reflexivity.
         -- rewrite <- PS, set_stack_same. reflexivity.
-      * cbn [agrees]. apply post_dir_abort0. reflexivity.
+      * cbn [agrees]. apply post_dir_abort0.
       * (* entered *)
         assert (Hpop : forall st', post c (Dir n ch df) (WOk (set_stack st' ms') Continue) = WOk (set_stack st' (s_stack st)) Continue).
         { intros st'. unfold post. cbn [is_dir]. rewrite andb_true_r.
@@ -410,15 +374,13 @@ Proof.
         assert (Hinner : forall r e, agrees_inner ms' r e c -> agrees c (s_stack st) (post c (Dir n ch df) r) e).
         { intros r e A. destruct e as [st'|st' a|st' pc]; unfold agrees_inner in *; cbn [agrees] in *.
           - rewrite A. apply Hpop.
-          - destruct A as [[ms A]|[G [ms A]]]; rewrite A.
-            + apply post_dir_abort. reflexivity.
-            + right. split; [exact G|]. exists ms. reflexivity.
+          - destruct A as [ms A]. rewrite A. apply post_dir_abort.
           - destruct A as [ms A]. rewrite A. exists ms. reflexivity. }
         destruct (df_open df).
         -- pose proof (second_call_agrees c p (Dir n ch df) (set_stack st2 ms') ms' (s_stack_set _ _)) as A.
            apply Hinner.
            destruct (exec c [HC ms' p (Dir n ch df) true] (set_stack st2 ms')) as [st'|st' a|st' pc]; unfold agrees_inner; cbn [agrees];
-             [exact A| |contradiction]. left. exists ms'. exact A.
+             [exact A| |contradiction]. exists ms'. exact A.
         -- apply Hinner.
            exact (walk_children_agrees c p (Dir n ch df) ms' ch IH (df_read_at df) (set_stack st2 ms') (s_stack_set _ _)).
 Qed.
